@@ -143,7 +143,7 @@ PROPS["C01"] = Prop(
 
 # ---------------------------------------------------------------------------
 # C09
-def c09_inst(w, m, n, length=None, core=True, timeout=900):
+def c09_inst(w, m, n, length=None, core=True, timeout=2400):
     r = n - w + 3 if n >= w else 3
     unw = n + 2
     if length is None:
@@ -172,7 +172,7 @@ def c09_instances(tier, seed):
         # quick: every length up to w+2 (w+3 for the smallest windows); thorough: up to w+3 everywhere
         top = w + 3 if (tier == "thorough" or w <= 2) else w + 2
         for length in range(0, top + 1):
-            out.append(c09_inst(w, m, w + 3, length, timeout=900 if length <= w + 2 else 2400))
+            out.append(c09_inst(w, m, w + 3, length, timeout=2400))
     if tier == "thorough":
         for (w, m) in [(4, 1), (6, 3), (6, 5), (8, 5)]:
             for length in range(0, w + 3):
@@ -208,7 +208,7 @@ PROPS["C09"] = Prop(
 BUFF_LOOP = r"for\s+\w+\s+in\s+0\.\.self\.buff\.len\(\)"
 
 
-def c18_inst(w, m, length, core=True, timeout=1200):
+def c18_inst(w, m, length, core=True, timeout=2400):
     r = length - w + 3 if length >= w else 3
     unw = max(length + 2, w + 2, r + 1)
     return Inst(
